@@ -1,7 +1,7 @@
 CONSTANTS
   EB = 20
   StaleP = 200
-  MaxOps = 6
+  MaxOps = 7
   MaxMonths = 3
   GenHist = TRUE
   GenBias = FALSE
@@ -9,9 +9,9 @@ CONSTANTS
   PlanIdx = {"p1"}
   Durs = {1}
   WithRelay = FALSE
-  Consumers = {"c1"}
+  Consumers = {"c1", "c2"}
   ThirdParty = {}
-  WithDrain = FALSE
+  WithDrain = TRUE
   PriceVar = {0}
 INIT Init
 NEXT Next
